@@ -55,7 +55,7 @@ func statusBranch(statusOrigin string) func(st *State, iff *ssa.If, taken bool) 
 		}
 		equal := ((cm.op == token.EQL) == truth) == taken
 		if equal {
-			st.Flags["status"] = int(k.Int64())
+			st.Flags["status"] = int(constInt64(k))
 		}
 	}
 }
@@ -439,7 +439,7 @@ func c14Retry(c *Ctx) {
 	incOK := false
 	// "attempt++" before the request (the incremented value is passed) ...
 	if bo, ok := att.(*ssa.BinOp); ok && bo.Op == token.ADD {
-		if k, ok := bo.Y.(*ssa.Const); ok && k.Int64() == 1 {
+		if k, ok := bo.Y.(*ssa.Const); ok && constInt64(k) == 1 {
 			if phi, ok := bo.X.(*ssa.Phi); ok {
 				for _, e := range phi.Edges {
 					if e == ssa.Value(bo) {
@@ -453,7 +453,7 @@ func c14Retry(c *Ctx) {
 	if phi, ok := att.(*ssa.Phi); ok {
 		for _, e := range phi.Edges {
 			if bo, ok := e.(*ssa.BinOp); ok && bo.Op == token.ADD && bo.X == ssa.Value(phi) {
-				if k, ok := bo.Y.(*ssa.Const); ok && k.Int64() == 1 {
+				if k, ok := bo.Y.(*ssa.Const); ok && constInt64(k) == 1 {
 					incOK = true
 				}
 			}
@@ -731,7 +731,7 @@ func c14ServerLoop(c *Ctx) {
 			// select on ctx.Done
 			if ex, ok := cm.x.(*ssa.Extract); ok && cm.op == token.EQL {
 				if sel, ok := ex.Tuple.(*ssa.Select); ok && taken == truth {
-					if k, isK := cm.y.(*ssa.Const); isK && int(k.Int64()) < len(sel.States) && isCtxDone(sel.States[k.Int64()].Chan) {
+					if k, isK := cm.y.(*ssa.Const); isK && int(constInt64(k)) < len(sel.States) && isCtxDone(sel.States[constInt64(k)].Chan) {
 						st.Flags["cancelled"] = 1
 					}
 				}
@@ -867,7 +867,7 @@ func c14Converters(c *Ctx) {
 			}
 			k, isK := bo.Y.(*ssa.Const)
 			phi, isPhi := bo.X.(*ssa.Phi)
-			if !isK || !isPhi || k.Int64() != 1 {
+			if !isK || !isPhi || constInt64(k) != 1 {
 				return
 			}
 			loop := false
